@@ -339,13 +339,16 @@ pub fn run(ctx: &Ctx) -> Outcome {
 
     run_cases(ctx, &mut out, SubSpec { name: "draw_image_calls", cases: ctx.n(40_000, 600_000), exhaustive: false, max_secs: secs / 2. }, |i, want, st| {
         let mut rng = ctx.rng("draw_image_calls", i);
-        let w = rng.int(2, 24) as i32;
-        let h = rng.int(2, 24) as i32;
+        // (one case in 700 on a surface 33000..70000 px long in one direction, the image placed beyond pixel 32760)
+        let huge = i % 700 == 3;
+        let huge_wide = rng.chance(0.5);
+        let w = if huge && huge_wide { rng.int(33000, 70000) as i32 } else if huge { rng.int(1, 2) as i32 } else { rng.int(2, 24) as i32 };
+        let h = if huge && !huge_wide { rng.int(33000, 70000) as i32 } else if huge { rng.int(1, 2) as i32 } else { rng.int(2, 24) as i32 };
         let iw = rng.int(1, 8) as i32;
         let ih = rng.int(1, 8) as i32;
         let data = probe_image(&mut rng, iw, ih);
         let img = Image { width: iw, height: ih, data: &data[..] };
-        let sized = rng.chance(0.5);
+        let sized = rng.chance(0.5) && !huge;
         let mut dt = DrawTarget::new(w, h);
         // sometimes under a power-of-two scale that the requested size cancels again
         let k = if sized && rng.chance(0.3) { *rng.pick(&[2.0f32, 0.5, 4.0]) } else { 1.0 };
@@ -370,8 +373,11 @@ pub fn run(ctx: &Ctx) -> Outcome {
             dt.draw_image_with_size_at(rw, rh, x, y, &img, &o);
         } else {
             // integer positions mostly (the statement's texel placement), but also fractional ones per axis
-            x = if rng.chance(0.7) { rng.int(-6, w as i64) as f32 } else { axis(&mut rng, 6) };
-            y = if rng.chance(0.7) { rng.int(-6, h as i64) as f32 } else { axis(&mut rng, 6) };
+            x = if huge && huge_wide { rng.int(32760, w as i64 - 1) as f32 } else if huge { rng.int(-2, 1) as f32 } else if rng.chance(0.7) { rng.int(-6, w as i64) as f32 } else { axis(&mut rng, 6) };
+            y = if huge && !huge_wide { rng.int(32760, h as i64 - 1) as f32 } else if huge { rng.int(-2, 1) as f32 } else if rng.chance(0.7) { rng.int(-6, h as i64) as f32 } else { axis(&mut rng, 6) };
+            if huge {
+                st.add("draw_image_at_beyond_pixel_32760", 1);
+            }
             rw = iw as f32;
             rh = ih as f32;
             dt.draw_image_at(x, y, &img, &o);
